@@ -254,7 +254,7 @@ func (d *decodingReader) decode(f frame.Frame) error {
 	// The checksum record itself is not covered by the checksum. Gob
 	// silently skips any trailing bytes of a message, so a damaged
 	// message length here would swallow the data that follow.
-	if d.crc.n-sumStart > maxChecksumRecordSize {
+	if d.crc.n-sumStart != checksumRecordSize(decoded) {
 		return errors.E(errors.Integrity, fmt.Errorf("checksum record has invalid size %d", d.crc.n-sumStart))
 	}
 	if sum != decoded {
@@ -263,10 +263,20 @@ func (d *decodingReader) decode(f frame.Frame) error {
 	return nil
 }
 
-// maxChecksumRecordSize is the maximum size of the gob message that
-// holds a batch's checksum: message length, type id and delta (one
-// byte each), and up to five bytes of uint32 value.
-const maxChecksumRecordSize = 8
+// checksumRecordSize returns the size of the gob message that holds
+// the checksum sum: message length, type id and delta (one byte each),
+// followed by the value, which gob encodes in a single byte if it is
+// less than 128 and otherwise as a byte count followed by its
+// big-endian bytes.
+func checksumRecordSize(sum uint32) int64 {
+	n := int64(4)
+	if sum >= 0x80 {
+		for ; sum > 0; sum >>= 8 {
+			n++
+		}
+	}
+	return n
+}
 
 // countingHash is a Hash32 that counts the bytes written to it since
 // the last Reset. The decoder uses it to tell whether an EOF occurred
